@@ -49,14 +49,14 @@ def J.isNull : J → Bool
 /-! ### Objects as `BTreeMap`s -/
 
 /-- `String: Ord` — bytewise on the UTF-8 encoding -/
-def keyLt (a b : String) : Bool := Bytes.lt (utf8 a) (utf8 b)
+def J.keyLt (a b : String) : Bool := Bytes.lt (utf8 a) (utf8 b)
 
 /-- `BTreeMap::insert`: an equal key has its value replaced, otherwise the pair goes in key order. -/
 def J.insertKV (k : String) (v : J) : List (String × J) → List (String × J)
   | [] => [(k, v)]
   | (k', v') :: rest =>
     if k = k' then (k, v) :: rest
-    else if keyLt k k' then (k, v) :: (k', v') :: rest
+    else if J.keyLt k k' then (k, v) :: (k', v') :: rest
     else (k', v') :: J.insertKV k v rest
 
 /-- members in source order ↦ the map's iteration order (sorted by key bytes, duplicates: last wins) -/
@@ -81,7 +81,7 @@ end
 def sortedKeys {α : Type} : List (String × α) → Bool
   | [] => true
   | [_] => true
-  | a :: b :: rest => keyLt a.1 b.1 && sortedKeys (b :: rest)
+  | a :: b :: rest => J.keyLt a.1 b.1 && sortedKeys (b :: rest)
 
 mutual
 /-- every object is in `BTreeMap` iteration order -/
@@ -197,49 +197,49 @@ def parseOps : List (String × J) → Except String (List (Query String))
       | .ok os => .ok (match o with | some q => q :: os | none => os)
 /-- `parse_operator`; `none` = the entry contributes no operator -/
 def parseOperator (key : String) (value : J) : Except String (Option (Query String)) :=
-    if key = "$and" then
-      match value with
-      | .arr values =>
-        if values.isEmpty then .ok none else
-        match parseList values with
+  if key = "$and" then
+    match value with
+    | .arr values =>
+      if values.isEmpty then .ok none else
+      match parseList values with
+      | .error e => .error e
+      | .ok operators => .ok (some (.and operators))
+    | _ => .error "$and must be array of JSON objects"
+  else if key = "$or" then
+    match value with
+    | .arr values =>
+      if values.isEmpty then .ok none else
+      match parseList values with
+      | .error e => .error e
+      | .ok operators => .ok (some (.or operators))
+    | _ => .error "$or must be array of JSON objects"
+  else if key = "$not" then
+    match value with
+    | .obj map =>
+      match parseOps map with
+      | .error e => .error e
+      | .ok operators => .ok (some (.not (collapse operators)))
+    | _ => .error "$not must be JSON object"
+  else if key = "$exist" then
+    match value with
+    | .str k => .ok (some (.exist [k]))
+    | .arr keys =>
+      if keys.isEmpty then .ok none else
+      match strings keys with
+      | some ks => .ok (some (.exist ks))
+      | none => .error "$exist must be used with a string or array of strings"
+    | _ => .error "$exist must be used with a string or array of strings"
+  else
+    match value with
+    | .str v => .ok (some (.cmp .eq key v))
+    | .obj map =>
+      match map with
+      | [(operatorName, v)] =>
+        match parseSingle operatorName key v with
         | .error e => .error e
-        | .ok operators => .ok (some (.and operators))
-      | _ => .error "$and must be array of JSON objects"
-    else if key = "$or" then
-      match value with
-      | .arr values =>
-        if values.isEmpty then .ok none else
-        match parseList values with
-        | .error e => .error e
-        | .ok operators => .ok (some (.or operators))
-      | _ => .error "$or must be array of JSON objects"
-    else if key = "$not" then
-      match value with
-      | .obj map =>
-        match parseOps map with
-        | .error e => .error e
-        | .ok operators => .ok (some (.not (collapse operators)))
-      | _ => .error "$not must be JSON object"
-    else if key = "$exist" then
-      match value with
-      | .str k => .ok (some (.exist [k]))
-      | .arr keys =>
-        if keys.isEmpty then .ok none else
-        match strings keys with
-        | some ks => .ok (some (.exist ks))
-        | none => .error "$exist must be used with a string or array of strings"
-      | _ => .error "$exist must be used with a string or array of strings"
-    else
-      match value with
-      | .str v => .ok (some (.cmp .eq key v))
-      | .obj map =>
-        match map with
-        | [(operatorName, v)] =>
-          match parseSingle operatorName key v with
-          | .error e => .error e
-          | .ok q => .ok (some q)
-        | _ => .error "value must be JSON object of length 1"
-      | _ => .error "Unsupported value"
+        | .ok q => .ok (some q)
+      | _ => .error "value must be JSON object of length 1"
+    | _ => .error "Unsupported value"
 /-- `parse_list_operators` -/
 def parseList : List J → Except String (List (Query String))
   | [] => .ok []
@@ -338,6 +338,20 @@ def normJ : Query String → Query String
 def normJList : List (Query String) → List (Query String)
   | [] => []
   | q :: qs => normJ q :: normJList qs
+end
+
+mutual
+/-- No `Or []` and no `Exist []` anywhere: what every filter the parser returns looks like
+    (`Lemmas.parseQuery_noEmpty`). -/
+def noEmptyOrExist : Query String → Bool
+  | .and qs => noEmptyOrExistList qs
+  | .or qs => !qs.isEmpty && noEmptyOrExistList qs
+  | .not q => noEmptyOrExist q
+  | .exist ns => !ns.isEmpty
+  | _ => true
+def noEmptyOrExistList : List (Query String) → Bool
+  | [] => true
+  | q :: qs => noEmptyOrExist q && noEmptyOrExistList qs
 end
 
 end Askar.Wql
